@@ -47,6 +47,7 @@ type Prog struct {
 	pktClosureSet map[*ssa.Function]bool
 	lockA *lockAnalysis
 	ctorCache map[*ssa.Function]bool
+	wocCache  map[string]bool
 	mutCache map[string]bool
 	sharedStoreCache map[string]bool
 	acqCache map[*ssa.Function]map[string]string
